@@ -446,7 +446,7 @@ func (i *interpreter) runPath(it workItem) {
 	if every <= 0 {
 		every = 1000
 	}
-	if len(r.Samples) < 12 && (r.Paths%every == 1 || r.Paths <= 2) && p.extra["assumed"] == nil {
+	if len(r.Samples) < 30 && (r.Paths%every == 1 || r.Paths <= 2) && p.extra["assumed"] == nil {
 		r.Samples = append(r.Samples, i.sample(outcome))
 	}
 }
